@@ -1,7 +1,7 @@
 SPECIFICATION Spec
 CONSTANTS
-  TopTypes = {"int", "ptr", "AI3", "AIX", "AC4", "ACX", "APX", "MC", "B", "N", "A", "U", "SA", "AS"}
-  MaxTok = 7
+  TopTypes = {"int", "ptr", "AI3", "AIX", "AC4", "ACX", "APX", "MC", "B", "N", "A", "U", "SA", "SC", "AS"}
+  MaxTok = 8
   MaxIdx = 2
   AllowAgg = FALSE
   DevOn = {}
